@@ -4084,6 +4084,30 @@ func lmBytesOnly(v ssa.Value) bool {
 		}
 		return false
 	}
+	// ownRes: result #idx of a static call of a function of the repository is an integer or bytes computed, on
+	// every return, from the callee's own integer / byte parameters only, and every argument is bytes-only
+	ownRes := func(call *ssa.Call, idx int, d int) bool {
+		g := ir.Callee(call.Call)
+		if !fxOwnFunc(g) || call.Call.IsInvoke() || d > 8 {
+			return false
+		}
+		res := g.Signature.Results()
+		if idx >= res.Len() || !(lmIsInt(res.At(idx).Type()) || isBytes(res.At(idx).Type())) {
+			return false
+		}
+		for _, a := range call.Call.Args {
+			if !ok(a, d+1) {
+				return false
+			}
+		}
+		rets := ir.Returns(g)
+		for _, r := range rets {
+			if idx >= len(r.Results) || !ok(r.Results[idx], d+1) {
+				return false
+			}
+		}
+		return len(rets) > 0
+	}
 	ok = func(v ssa.Value, d int) bool {
 		if seen[v] || d > 12 {
 			return true
@@ -4104,8 +4128,16 @@ func lmBytesOnly(v ssa.Value) bool {
 			if sc := ir.Callee(x.Call); sc != nil && sc.Pkg != nil && sc.Pkg.Pkg.Path() == "encoding/binary" {
 				return true
 			}
+			if x.Call.Signature().Results().Len() == 1 {
+				return ownRes(x, 0, d)
+			}
 			return false
 		case *ssa.Extract:
+			// a result of a decoding helper of the repository (n, rest, err := decodeLength(buf)): bytes-only when
+			// the helper is handed bytes and integers only and computes that result from them alone
+			if call, isC := x.Tuple.(*ssa.Call); isC && fxOwnFunc(ir.Callee(call.Call)) {
+				return ownRes(call, x.Index, d)
+			}
 			return ok(x.Tuple, d+1)
 		case *ssa.UnOp:
 			return ok(x.X, d+1)
